@@ -88,7 +88,7 @@ def corr(ctx):
             if len(stats['disagreements']) >= 10: break
     # _add_to_defs on id lists, and the defs order of a re-converted pico document (gradients only, all in use)
     host = SVG.fromstring('<svg xmlns="http://www.w3.org/2000/svg"/>')
-    IDS = ['a', 'b', 'c', 'a_0', 'b_1', 'grad1', 'grad10', 'grad2', 'A', 'Z', 'a.b', 'ab', '']
+    IDS = ['a', 'b', 'c', 'a_0', 'b_1', 'grad1', 'grad10', 'grad2', 'A', 'Z', 'a.b', 'ab', 'p1', 'p01', 'p2', '']
     G = lambda i: f'<linearGradient id="{i}" x1="0" y1="0" x2="1" y2="0"><stop offset="0" stop-color="red"/><stop offset="1" stop-color="blue"/></linearGradient>'
     for i in range(ctx.n(300, 3000)):
         l = rng.sample(IDS[:-1], rng.randint(0, 6)); new = rng.choice([x for x in IDS[:-1] if x not in l])
@@ -171,22 +171,28 @@ def reachable_by_add_to_defs(order, doc):
                 if [i for i in add_to_defs_order(perm) if i in keep] == list(order): return True
     return False
 
-def judge(doc, nd):
-    try: out1 = SVG.fromstring(doc).topicosvg(ndigits=nd).tostring()
+def c14n(xml):
+    try: return etree.tostring(etree.fromstring(xml.encode()), method='c14n')
+    except Exception: return None
+
+def judge(doc, nd, allow_text=False):
+    kw = dict(allow_text=True) if allow_text else {}
+    try: out1 = SVG.fromstring(doc).topicosvg(ndigits=nd, **kw).tostring()
     except Exception: return None
     errs = None
-    try: errs = SVG.fromstring(out1).checkpicosvg()
+    try: errs = SVG.fromstring(out1).checkpicosvg(**kw)
     except Exception as e: errs = (f'raised {type(e).__name__}: {e}',)
     if errs:
         return ('a converted document passes checkpicosvg with no violations', '()', {'violations': [str(x) for x in errs][:5], 'pass1': out1[:3000]})
     prev = out1
     for k in (2, 3):
-        try: nxt = SVG.fromstring(prev).topicosvg(ndigits=nd).tostring()
+        try: nxt = SVG.fromstring(prev).topicosvg(ndigits=nd, **kw).tostring()
         except Exception as e:
             return (f'pass {k} accepts the output of pass {k - 1}', 'normal return', {'raised': f'{type(e).__name__}: {str(e)[:300]}', f'pass{k - 1}': prev[:3000]})
         if nxt != prev:
             return (f'pass {k} is byte-identical to pass {k - 1}', {'pass': prev[:3000], 'defs_ids': defs_ids(prev)},
-                    {'pass': nxt[:3000], 'defs_ids': defs_ids(nxt), 'only_defs_order': defs_sorted(nxt) == defs_sorted(prev)})
+                    {'pass': nxt[:3000], 'defs_ids': defs_ids(nxt), 'only_defs_order': defs_sorted(nxt) == defs_sorted(prev),
+                     'only_attribute_order': c14n(nxt) is not None and c14n(nxt) == c14n(prev)})
         prev = nxt
     return None
 
@@ -214,6 +220,19 @@ def search(ctx, broken, disagreements):
                 if known_hits > 1: continue
             found.append(item)
             if len(found) >= 2: break
+    # text content (allow_text=True in every pass): directly under the root, inside a dissolvable group, next to shapes
+    HT = '<svg xmlns="http://www.w3.org/2000/svg" viewBox="0 0 100 100">'
+    text_hits = 0
+    for body in ('<text x="1" y="2">hi</text>', '<g><text x="1" y="2">hi</text></g>', '<path d="M1,1 L5,1 L5,5 Z"/><text x="3" y="9" fill="red">a</text>',
+                 '<g fill="blue"><text x="1" y="2"><tspan>b</tspan></text><path d="M1,1 L5,1 L5,5 Z"/></g>'):
+        n += 1
+        v = judge(HT + body + '</svg>', 3, allow_text=True)
+        if v:
+            item = {'law': v[0], 'input': {'doc': HT + body + '</svg>', 'ndigits': 3, 'allow_text': True}, 'expected_by_spec': jsonable(v[1]), 'observed': jsonable(v[2])}
+            if matches_known(item, {'signature': {'pattern': 'text_attribute_order'}}):
+                text_hits += 1
+                if text_hits > 1: continue
+            found.append(item)
     for i in range(ctx.n(220, 5000)):
         kw = [dict(), dict(gradients=0.6, uses=0.4), dict(strokes=0.6, clips=0.5), dict(shared_ids=True, nested=0.3)][i % 4]
         doc = docgen.random_doc(rng, **kw) if i % 4 != 3 else docgen.group_soup(rng)
@@ -235,6 +254,10 @@ def search(ctx, broken, disagreements):
 
 def matches_known(v, entry):
     sig = entry.get('signature', {})
+    if sig.get('pattern') == 'text_attribute_order':
+        # allow_text only, and the two passes are the same document up to the order of attributes (canonical XML equal)
+        o = v.get('observed')
+        return bool((v.get('input') or {}).get('allow_text') and isinstance(o, dict) and o.get('only_attribute_order') and '<text' in str(o.get('pass', '')))
     if sig.get('pattern') == 'defs_order_only':
         # only the recorded mechanism: every other byte identical AND the new order is exactly what front insertion predicts
         o, e = v.get('observed'), v.get('expected_by_spec')
@@ -248,5 +271,5 @@ def matches_known(v, entry):
     return False
 
 def replay(ctx, w):
-    v = judge(w['doc'], w.get('ndigits', 3))
+    v = judge(w['doc'], w.get('ndigits', 3), allow_text=bool(w.get('allow_text')))
     return {'fails': v is not None, 'detail': jsonable(v)}
